@@ -12,7 +12,7 @@ import (
 
 func init() {
 	register(&propDef{ID: "C01", Run: runC01,
-		Explain:    "Structural necessary conditions of 'relaying leaves everything the proxy does not own untouched', decided on SSA/CFG/value flow of /repo: (1) funnel: the payload of every network write primitive in the package is result 0 of Message.Bytes, which returns the buffer written only by Message.Write; (2) emit-order: Write emits start line, headers, the Content-Length line and the body, each exactly once, in that order, to its writer; (3) cl-value: the integer printed as Content-Length is len(m.body) and the body write writes that same m.body; exactly one format literal in the package carries the header name; (4) emit-all: in encodeHeader every element of m.headers is emitted with its own name and value in the literal form 'name: value CRLF', the only suppressing guard is the Content-Length test, the loop ends only by exhaustion or on a write error; (5) cl-comparator: that test uses the canonical comparator; (6) list-effects: every store to Message.headers is append-one (parse), insert-one or delete-one; inserted names are the constants Via/Record-Route, deleted names the constants Via/Route; AddHeader is called only by the parser; (7) value-effects: Header.name is stored only at construction, Header.value outside construction only with the decoded form of that same header's raw string; (8) payload-immutability: relay-reachable code writes fields of the start line, From/To/CSeq and URI types only on freshly allocated objects; body/request/response are stored only by constructors and the parser; (9) parse-capture: header names are pure substrings, values TrimSpace of a substring, one AddHeader per header line, request-line fields in order; (10) format-taint (shared with C14); (11) delimiter-agreement (shared with C14): the start line's Request-URI and the From/To values are decoded and printed again, so every separator a decoder strips must be written back by the printer.",
+		Explain:    "Structural necessary conditions of 'relaying leaves everything the proxy does not own untouched', decided on SSA/CFG/value flow of /repo: (1) funnel: the payload of every network write primitive in the package is result 0 of Message.Bytes, which returns the buffer written only by Message.Write; (2) emit-order: Write emits start line, headers, the Content-Length line and the body, each exactly once, in that order, to its writer; (3) cl-value: the integer printed as Content-Length is len(m.body) and the body write writes that same m.body; exactly one format literal in the package carries the header name; (4) emit-all: in encodeHeader every element of m.headers is emitted with its own name and value in the literal form 'name: value CRLF', the only suppressing guard is the Content-Length test, the loop ends only by exhaustion or on a write error; (5) cl-comparator: that test uses the canonical comparator; (6) list-effects: every store to Message.headers is append-one (parse), insert-one or delete-one; inserted names are the constants Via/Record-Route, deleted names the constants Via/Route; AddHeader is called only by the parser; (7) value-effects: Header.name is stored only at construction, Header.value outside construction only with the decoded form of that same header's raw string; (8) payload-immutability: relay-reachable code writes fields of the start line, From/To/CSeq and URI types only on freshly allocated objects; body/request/response are stored only by constructors and the parser; (9) parse-capture: header names are pure substrings, values TrimSpace of a substring, one AddHeader per header line, request-line fields in order; (10) format-taint (shared with C14); (11) delimiter-agreement (shared with C14): the start line's Request-URI and the From/To values are decoded and printed again, so every separator a decoder strips must be written back by the printer; (12) full-write / bounded-attempts / failure-cleanup (shared with C20): each attempt writes the whole serialisation, and after a failed write the connection is closed and forgotten before the next attempt.",
 		NotDecided: "byte equality of relayed and received messages for every input (value-level decoder/printer behaviour beyond the C14 rules); collapse of blank runs in start lines."})
 }
 
@@ -40,6 +40,21 @@ func runC01(c *Ctx) {
 	// the Request-URI of the start line and the From/To values the proxy looks into are decoded and printed again:
 	// every separator a decoder strips is written back by the printer (shared with C14)
 	c14Delimiters(c)
+	// on a byte stream, what reaches the next hop is what was written: a write that failed part-way is never followed by
+	// another write on the same connection (the connection is closed and forgotten first), and each attempt writes the
+	// whole serialisation - otherwise the peer reads a fragment followed by the whole message (rules shared with C20)
+	for _, sp := range sendFns {
+		f := c.fn("failure-cleanup", sp.Fn)
+		if f == nil {
+			continue
+		}
+		if len(c.w.netWriteSites(f)) > 0 {
+			c20FullWrite(c, f)
+		}
+		if sp.Retry {
+			c20Retry(c, f, sp)
+		}
+	}
 }
 
 func c01Funnel(c *Ctx) {
